@@ -99,6 +99,9 @@ pub enum Gate {
     LineStart(u16),
     /// an address that is the start of no line
     Elsewhere(u64),
+    /// an address strictly inside line k (byte offset derived from the second field; also
+    /// page-aligned interior addresses): the start of no line either
+    Inside(u16, u32),
 }
 
 #[derive(Debug, Clone, PartialEq, Eq, Hash, Serialize, Deserialize)]
@@ -179,6 +182,21 @@ fn gate_addr(c: &Case, lines: &[Resolved]) -> Option<u64> {
         Gate::Elsewhere(a) => {
             let a = (*a | 0x800) & 0x7fff_ffff_ffff; // never page aligned => start of no line
             Some(a)
+        }
+        Gate::Inside(k, o) => {
+            if lines.is_empty() {
+                None
+            } else {
+                let l = &lines[((*k as usize) * lines.len()) >> 16];
+                let len = l.end - l.start;
+                // low bit of o: page-aligned interior address (if the line has >= 2 pages) or any byte
+                let a = if o & 1 == 1 && len >= 0x2000 { l.start + 0x1000 * (1 + (*o as u64 >> 1) % (len / 0x1000 - 1)) } else { l.start + 1 + (*o as u64 >> 1) % (len - 1) };
+                if lines.iter().any(|x| x.start == a) {
+                    None
+                } else {
+                    Some(a)
+                }
+            }
         }
     }
 }
@@ -317,6 +335,9 @@ pub fn check_resolved(lines: &[Resolved], gate: Option<u64>, fp: u64) -> Verdict
             classes.push("gate-line-merged-away".into());
         } else {
             // address of no line: nothing may be renamed
+            if lines.iter().any(|l| l.start < g && g < l.end) {
+                classes.push("gate-inside-line".into());
+            }
             if out.iter().any(|m| m.name.as_deref().and_then(|n| n.to_str()) == Some("linux-gate.so")) {
                 bad!("gate-spurious", "a mapping was named linux-gate.so although no line starts at {g:x}");
             }
@@ -401,7 +422,7 @@ pub fn case_strategy() -> impl Strategy<Value = Case> {
     (
         0u32..0x7_0000_0000u64.min(u32::MAX as u64) as u32,
         lines,
-        prop_oneof![2 => Just(Gate::None), 3 => any::<u16>().prop_map(Gate::LineStart), 1 => any::<u64>().prop_map(Gate::Elsewhere)],
+        prop_oneof![2 => Just(Gate::None), 3 => any::<u16>().prop_map(Gate::LineStart), 1 => any::<u64>().prop_map(Gate::Elsewhere), 2 => (any::<u16>(), any::<u32>()).prop_map(|(k, o)| Gate::Inside(k, o))],
     )
         .prop_map(|(base_page, lines, gate)| Case { base_page, lines, gate })
 }
@@ -587,7 +608,7 @@ pub fn run(ctx: &mut LaneCtx) {
         SubSpec {
             name: "generated-maps",
             cases: (80_000, 4_000_000),
-            rule: "generated /proc/pid/maps texts (0..40 lines: loader-like blocks + free lines; all perms; offsets 0/prev-end/pages/arbitrary; names none/paths/deleted/pseudo) + vDSO address (none / start of a line / no line); non-trivial = at least one merge happened or the gate mapping was renamed; distinct = hash of the case",
+            rule: "generated /proc/pid/maps texts (0..40 lines: loader-like blocks + free lines; all perms; offsets 0/prev-end/pages/arbitrary; names none/paths/deleted/pseudo) + vDSO address (none / start of a line / strictly inside a line, byte- or page-aligned / outside every line); non-trivial = at least one merge happened or the gate mapping was renamed; distinct = hash of the case",
             strategy: case_strategy().boxed(),
             max_shrink_iters: 4096,
             log_current: false,
